@@ -395,6 +395,7 @@ type BuildEv struct {
 	Derr  bool    `json:"derr"`
 	Dec   Proj    `json:"dec"`
 	Dmm   [][]int `json:"dmm"`
+	Bmm   [][]int `json:"bmm"`  // MCC / MNC the BUILT entries report (read after the whole list was built and encoded)
 	Lerr  bool    `json:"lerr"` // stand-alone IE MarshalBinary / UnmarshalBinary
 	Lenc  []int   `json:"lenc"`
 	Ldec  Proj    `json:"ldec"`
@@ -404,8 +405,17 @@ type BuildEv struct {
 func buildSubs(ss []SubS) (upc.UEPolicySectionManagementListContent, bool) {
 	var lc upc.UEPolicySectionManagementListContent
 	perr := false
+	// lists whose first PLMN has an even MCC are built the way a loop with ONE working variable does it: the same sublist value
+	// is given the next PLMN and fresh contents and appended again (AppendSublist stores by value) - earlier entries keep theirs
+	reuse := len(ss) >= 2 && ss[0].Mcc%2 == 0
+	var work upc.UEPolicySectionManagementSubList
 	for _, s := range ss {
-		var sl upc.UEPolicySectionManagementSubList
+		var fresh upc.UEPolicySectionManagementSubList
+		sl := &fresh
+		if reuse {
+			sl = &work
+			sl.UEPolicySectionManagementSubListContents = nil
+		}
 		if e := sl.SetPlmnDigit(s.Mcc, s.Mnc); e != nil {
 			perr = true
 		}
@@ -420,7 +430,7 @@ func buildSubs(ss []SubS) (upc.UEPolicySectionManagementListContent, bool) {
 			}
 			sl.UEPolicySectionManagementSubListContents.AppendInstruction(in)
 		}
-		lc.AppendSublist(sl)
+		lc.AppendSublist(*sl)
 	}
 	return lc, perr
 }
@@ -428,8 +438,15 @@ func buildSubs(ss []SubS) (upc.UEPolicySectionManagementListContent, bool) {
 func buildSrs(ss []SubResS) (upc.UEPolicySectionManagementResultContent, bool) {
 	var rc upc.UEPolicySectionManagementResultContent
 	perr := false
+	reuse := len(ss) >= 2 && ss[0].Mcc%2 == 0 // as in buildSubs: one working variable for all entries
+	var work upc.UEPolicySectionManagementSubResult
 	for _, s := range ss {
-		var sr upc.UEPolicySectionManagementSubResult
+		var fresh upc.UEPolicySectionManagementSubResult
+		sr := &fresh
+		if reuse {
+			sr = &work
+			sr.UEPolicySectionManagementSubResultContents = nil
+		}
 		if e := sr.SetPlmnDigit(s.Mcc, s.Mnc); e != nil {
 			perr = true
 		}
@@ -440,7 +457,7 @@ func buildSrs(ss []SubResS) (upc.UEPolicySectionManagementResultContent, bool) {
 			x.Cause = uint8(r.Cause)
 			sr.UEPolicySectionManagementSubResultContents.AppendResult(x)
 		}
-		rc.AppendSublist(sr)
+		rc.AppendSublist(*sr)
 	}
 	return rc, perr
 }
@@ -466,7 +483,7 @@ func newLive(st St) *live {
 func (s *sess) build(st St) []byte {
 	var L *live
 	if pi, hang := guarded(func() { L = newLive(st) }); pi != nil || hang {
-		e := BuildEv{Op: "Build", St: st, Enc: []int{}, Built: emptyProj(), Dec: emptyProj(), Dmm: [][]int{}, Lenc: []int{}, Ldec: emptyProj(), Obs: obs(pi, hang)}
+		e := BuildEv{Op: "Build", St: st, Enc: []int{}, Built: emptyProj(), Dec: emptyProj(), Dmm: [][]int{}, Bmm: [][]int{}, Lenc: []int{}, Ldec: emptyProj(), Obs: obs(pi, hang)}
 		s.w.Emit(e)
 		return nil
 	}
@@ -479,7 +496,7 @@ func (s *sess) encode(opname string, st St, L *live) []byte {
 	if hangs["Build"] >= 3 {
 		return nil
 	}
-	e := BuildEv{Op: opname, St: st, Enc: []int{}, Built: emptyProj(), Dec: emptyProj(), Dmm: [][]int{}, Lenc: []int{}, Ldec: emptyProj()}
+	e := BuildEv{Op: opname, St: st, Enc: []int{}, Built: emptyProj(), Dec: emptyProj(), Dmm: [][]int{}, Bmm: [][]int{}, Lenc: []int{}, Ldec: emptyProj()}
 	var enc []byte
 	pi, hang := guarded(func() {
 		u := upc.NewUePolDeliverySer()
@@ -513,7 +530,7 @@ func (s *sess) encode(opname string, st St, L *live) []byte {
 			}
 			u.ManageUEPolicyCommand = c
 			b.Iei, b.Len = int(c.UEPolicySectionManagementList.GetIei()), int(c.UEPolicySectionManagementList.GetLen())
-			b.Subs, _ = projSubs(L.lc)
+			b.Subs, e.Bmm = projSubs(L.lc)
 			if k := c.UEPolicyNetworkClassmark; k != nil {
 				b.Cm = []int{int(k.GetIei()), int(k.GetLen()), int(k.GetNSSUI()), int(k.GetSpare())}
 			}
@@ -547,7 +564,7 @@ func (s *sess) encode(opname string, st St, L *live) []byte {
 			c.UEPolicySectionManagementResult.SetUEPolicySectionManagementResultContent(cb)
 			u.ManageUEPolicyReject = c
 			b.Iei, b.Len = int(c.UEPolicySectionManagementResult.GetIei()), int(c.UEPolicySectionManagementResult.GetLen())
-			b.Srs, _ = projSrs(L.rc)
+			b.Srs, e.Bmm = projSrs(L.rc)
 			lenc, lerr = c.UEPolicySectionManagementResult.MarshalBinary()
 			if lerr == nil {
 				var l2 upc.UEPolicySectionManagementResult
@@ -577,7 +594,7 @@ func (s *sess) encode(opname string, st St, L *live) []byte {
 		hangs["Build"]++
 	}
 	if pi != nil || hang { // partial results of an aborted call are not observations
-		e.Enc, e.Built, e.Dec, e.Dmm, e.Lenc, e.Ldec = []int{}, emptyProj(), emptyProj(), [][]int{}, []int{}, emptyProj()
+		e.Enc, e.Built, e.Dec, e.Dmm, e.Bmm, e.Lenc, e.Ldec = []int{}, emptyProj(), emptyProj(), [][]int{}, [][]int{}, []int{}, emptyProj()
 		enc = nil
 	}
 	s.w.Emit(e)
